@@ -39,7 +39,7 @@ ASSUMPTIONS = [
     "equality, the independent ElementTree listing, the TSV tag table as a whole, header/prologue/epilogue, the '#' line "
     "layout, unmerged (rooted) MediaWiki sections, XML lexing/pretty printing, pandas CSV I/O, section splitting, the "
     "partnered merge on load",
-    "open findings: C05-F8 (a TSV save location named *.TSV / *.Tsv cannot be loaded back; fix-F8 proposed), C05-F3 rest (nowiki words inside a description are deleted by the MediaWiki reader) and C05-F6 (a tab "
+    "open findings: C05-F3 rest (nowiki words inside a description are deleted by the MediaWiki reader) and C05-F6 (a tab "
     "or line feed in a name admitted through allowedCharacter cannot be held by TSV / MediaWiki); the VERIF_C05_FIXED* "
     "switches at 0 describe the code BEFORE the corresponding fix commits (records only)",
 ]
